@@ -5,13 +5,17 @@
 //! ends, optional trailing separators) × `[format]` option sets.
 //!
 //! Per case (`<id>` = running number) these request lines are written:
-//! * `idem <id> <opt> <hex src>`    impl = `ok` | `nonidem sp=… fix=… cyc=… docs=… shape=… tie=…` | `noparse2` …;
+//! * `idem <id> <opt> <hex src>`    impl = `ok` | `nonidem blank=… same=… sp=… orbit=… docs=… shape=… tie=…` | `noparse2` …;
 //!                                  oracle = `ok`: format(format s) == format s with the REAL Formatter (C08).
-//!     Signature bits of a non-idempotent case (DESIGN §5 #16): `sp` pass 1 and pass 2 differ only in the
-//!     lengths of space runs inside lines; `fix` pass 3 == pass 2; `cyc` pass 3 == pass 1 ≠ pass 2 (the passes
-//!     oscillate); `docs` the two Docs are equal once pad
-//!     nodes are removed; `shape` the two aligner call traces are equal up to token positions; `tie` see below.
-//! * `layout <id> <opt> <hex src>`  impl = `reparse=… tokens=… comments=… [sv=…]`, oracle all `ok` (C09).
+//!     Signature bits of a non-idempotent case: `blank` how the blank lines of consecutive passes differ (`0`,
+//!     `modport` = only inside empty modport bodies, `other`); `same` the passes are equal once blank lines are
+//!     dropped; (DESIGN §5 #16:) `sp` pass 1 and pass 2 (blank lines dropped) differ only in the
+//!     lengths of space runs inside lines; `orbit` of the text under repeated formatting (up to 10 passes):
+//!     `fix@k` pass k+1 == pass k (first such k ≥ 2), `cyc@k+p` pass k+p == pass k with period p ≥ 2 (no fixed
+//!     point ever), `none` no text repeated within 10 passes; `docs` the Docs of ALL passes are equal once pad
+//!     nodes are removed (runs of sibling hard lines counted once); `shape` the aligner call traces of all passes are equal up to token positions; `tie` see below.
+//! * `layout <id> <opt> <hex src>`  impl = `reparse=… tokens=… comments=… [sv=…]`, oracle all `ok` (C09);
+//!     `tokens=BAD:embed-trailing-ws`: the only token change is trailing blanks trimmed inside multi-line tokens.
 //! * `tie <id> <pass>`              impl = `shim=… pads=… render=…`, oracle all `ok`: the traced build of
 //!     formatter.rs (hx-fmt-traced) gives byte-identical output, the pad nodes of the real Doc are exactly
 //!     the additions of the real aligner for the tokens in walk order, re-rendering the tapped Doc gives the output.
@@ -393,6 +397,9 @@ fn doc_without_pads(d: &Doc) -> String {
                         x => v.push(x),
                     }
                 }
+                // runs of sibling hard lines (= blank lines) count once: their multiplicity is judged on the
+                // text (`blank=` bit of the verdict)
+                v.dedup_by(|a, b| matches!(a, Doc::Hardline) && matches!(b, Doc::Hardline));
                 match v.len() {
                     0 => Doc::Nil,
                     1 => v.pop().unwrap(),
@@ -502,6 +509,73 @@ fn shapes_equal(a: &[String], b: &[String]) -> bool {
         && a.iter().zip(b.iter()).all(|(x, y)| x == y || (x == "p.1" && y == "t:1.-:") || (y == "p.1" && x == "t:1.-:"))
 }
 
+/// The runs of blank lines of a text, keyed by their context in the stream of non-blank characters (commas
+/// dropped: layout, padding and optional trailing separators do not change it): (the 40 characters before the
+/// run, the 8 after it) -> lengths in order.
+fn blank_runs(t: &str) -> BTreeMap<(String, String), Vec<usize>> {
+    let mut m: BTreeMap<(String, String), Vec<usize>> = BTreeMap::new();
+    let lines: Vec<&str> = t.split('\n').map(|l| l.trim_end_matches('\r')).collect();
+    let squeeze = |l: &str| -> String { l.chars().filter(|c| !c.is_whitespace() && *c != ',').collect() };
+    let mut before: Vec<char> = vec![];
+    let mut k = 0;
+    while k < lines.len() {
+        if lines[k].trim().is_empty() {
+            let st = k;
+            while k < lines.len() && lines[k].trim().is_empty() {
+                k += 1;
+            }
+            if k < lines.len() {
+                let b: String = before[before.len().saturating_sub(40)..].iter().collect();
+                let mut after = String::new();
+                let mut j = k;
+                while j < lines.len() && after.chars().count() < 8 {
+                    after.push_str(&squeeze(lines[j]));
+                    j += 1;
+                }
+                let after: String = after.chars().take(8).collect();
+                m.entry((b, after)).or_default().push(k - st);
+            }
+        } else {
+            before.extend(squeeze(lines[k]).chars());
+            k += 1;
+        }
+    }
+    m
+}
+
+/// How the blank lines of two consecutive passes differ: `0` not at all; `modport` only inside empty modport
+/// bodies (`modport <id> {` … `}`: `Formatter::modport_declaration` emits `newline_push` + `newline_pop` around
+/// nothing, and the next pass sees a source-line gap there); `other`.
+fn blank_class(a: &str, b: &str) -> &'static str {
+    let (ra, rb) = (blank_runs(a), blank_runs(b));
+    if ra == rb {
+        return "0";
+    }
+    let keys: std::collections::BTreeSet<_> = ra.keys().chain(rb.keys()).cloned().collect();
+    for k in keys {
+        if ra.get(&k) != rb.get(&k) {
+            let (before, after) = &k;
+            // … `modport` <identifier> `{`  |  `}`
+            let modport = after.starts_with('}') && before.ends_with('{') && {
+                let body = &before[..before.len() - 1];
+                let id_len = body.chars().rev().take_while(|c| c.is_alphanumeric() || *c == '_' || *c == '#').count();
+                let head: String = body.chars().take(body.chars().count() - id_len).collect();
+                let ident: String = body.chars().skip(body.chars().count() - id_len).collect();
+                // the identifier characters run into the keyword: `modport` must be their prefix or precede them
+                head.ends_with("modport") || ident.starts_with("modport") && ident.len() > "modport".len()
+            };
+            if !modport {
+                return "other";
+            }
+        }
+    }
+    "modport"
+}
+
+fn without_blank_lines(t: &str) -> String {
+    t.split('\n').filter(|l| !l.trim().is_empty()).collect::<Vec<_>>().join("\n")
+}
+
 /// Do `a` and `b` differ only in the lengths of runs of spaces inside lines (indentation equal)?
 fn only_space_runs(a: &str, b: &str) -> bool {
     let la: Vec<&str> = a.split('\n').collect();
@@ -552,7 +626,25 @@ fn layout_verdict(src_parser: &Parser, out: &str) -> (String, Option<Parser>) {
     let c1: Vec<String> = s1.iter().filter(|x| x.1).map(|x| norm_comment(&x.0)).collect();
     let c2: Vec<String> = s2.iter().filter(|x| x.1).map(|x| norm_comment(&x.0)).collect();
     let tokens = strip_trailing_seps(&t1) == strip_trailing_seps(&t2);
-    (format!("reparse=ok tokens={} comments={}", b(tokens), b(c1 == c2)), Some(p2))
+    if !tokens && std::env::var("HX_DUMP").is_ok() {
+        let (a, b) = (strip_trailing_seps(&t1), strip_trailing_seps(&t2));
+        let k = a.iter().zip(b.iter()).position(|(x, y)| x != y).unwrap_or(a.len().min(b.len()));
+        eprintln!("TOKENS differ at {k} of {}/{}: {:?} vs {:?}", a.len(), b.len(), &a[k.saturating_sub(2)..(k + 3).min(a.len())], &b[k.saturating_sub(2)..(k + 3).min(b.len())]);
+    }
+    // signature of the known defect: the ONLY token differences are trailing blanks trimmed inside multi-line
+    // tokens (embedded foreign code: `strip_trailing_whitespace` runs over the whole rendered text)
+    let tws = !tokens && {
+        let (a, bb) = (strip_trailing_seps(&t1), strip_trailing_seps(&t2));
+        // blanks are trimmed only where a line of the token ENDS inside it (not after its last line)
+        let trim = |x: &str| {
+            let v: Vec<&str> = x.split('\n').collect();
+            let n = v.len();
+            v.iter().enumerate().map(|(k, l)| if k + 1 < n { l.trim_end_matches([' ', '\t']) } else { *l }).collect::<Vec<_>>().join("\n")
+        };
+        a.len() == bb.len() && a.iter().zip(bb.iter()).all(|(x, y)| x == y || (x.contains('\n') && trim(x) == *y))
+    };
+    let tv = if tokens { "ok" } else if tws { "BAD:embed-trailing-ws" } else { "BAD" };
+    (format!("reparse=ok tokens={} comments={}", tv, b(c1 == c2)), Some(p2))
 }
 
 // ---------------------------------------------------------------------------------------------
@@ -635,39 +727,81 @@ fn run_case(log: &mut Log, id: u64, src: &str, opt: &Opt, b: &Budget, label: &st
         let _ = std::fs::write(format!("{dir}/case{id:x}.trace1.txt"), trace_shape(&p1.trace).join("\n"));
         let _ = std::fs::write(format!("{dir}/case{id:x}.trace2.txt"), trace_shape(&p2.trace).join("\n"));
     }
-    let sp = only_space_runs(&p1.out, &p2.out);
-    let p3 = format_pass(&p2.out, opt).ok();
-    let fix = p3.as_ref().is_some_and(|p| p.out == p2.out);
-    let cyc = !fix && p3.as_ref().is_some_and(|p| p.out == p1.out);
-    let docs = match (&p1.doc, &p2.doc) {
-        (Some((d1, _)), Some((d2, _))) => doc_without_pads(d1) == doc_without_pads(d2),
-        _ => false,
-    };
-    let shape = shapes_equal(&trace_shape(&p1.trace), &trace_shape(&p2.trace));
-    let tie1 = tie_verdict(&p1, opt) == "shim=ok pads=ok render=ok";
-    let tie2v = tie_verdict(&p2, opt);
-    let tie = tie1 && tie2v == "shim=ok pads=ok render=ok";
-    // the aligner's view of both passes: Lean must reproduce both sets of additions
-    if !emit_align {
-        align_line(log, &p1.trace, &p1.sources);
+    let sp = only_space_runs(&without_blank_lines(&p1.out), &without_blank_lines(&p2.out));
+    // the orbit of the text under repeated formatting: passes 1, 2, … up to MAX_PASSES, until a text repeats
+    const MAX_PASSES: usize = 10;
+    let tie_ok = "shim=ok pads=ok render=ok";
+    let first_out = p1.out.clone();
+    let mut passes: Vec<Pass> = vec![p1, p2];
+    let mut orbit = "none".to_string();
+    loop {
+        let n = passes.len();
+        // does the newest text repeat an earlier one?
+        if let Some(k) = (0..n - 1).find(|k| passes[*k].out == passes[n - 1].out) {
+            // pass k+1 and pass n have the same text (1-based)
+            orbit = if k + 2 == n { format!("fix@{}", k + 1) } else { format!("cyc@{}+{}", k + 1, n - 1 - k) };
+            break;
+        }
+        if n >= MAX_PASSES {
+            break;
+        }
+        match format_pass(&passes[n - 1].out, opt) {
+            Ok(p) => passes.push(p),
+            Err(_) => {
+                orbit = "error".into();
+                break;
+            }
+        }
     }
-    log.push3(format!("tie {id:x} 2"), tie2v, "shim=ok pads=ok render=ok".into());
-    align_line(log, &p2.trace, &p2.sources);
-    // … and M-Pretty both outputs from the two Docs
-    for p in [&p1, &p2] {
+    log.count(&format!("orbit_{}", orbit.split('@').next().unwrap_or("")));
+    log.add("orbit_passes_total", passes.len() as u64);
+    // verified conditions, for EVERY pass of the orbit: the Docs are equal once pads are removed, the aligner
+    // call traces are equal up to token positions, the traced build agrees with the real Formatter and the
+    // real Doc's pads are the real aligner's additions
+    let norm0 = passes[0].doc.as_ref().map(|(d, _)| doc_without_pads(d));
+    let docs = norm0.is_some() && passes.iter().all(|p| p.doc.as_ref().map(|(d, _)| doc_without_pads(d)) == norm0);
+    let shape0 = trace_shape(&passes[0].trace);
+    let shape = passes.iter().all(|p| shapes_equal(&shape0, &trace_shape(&p.trace)));
+    let mut tie = true;
+    for (k, p) in passes.iter().enumerate() {
+        let tv = tie_verdict(p, opt);
+        tie &= tv == tie_ok;
+        if k > 0 {
+            log.push3(format!("tie {id:x} {}", k + 1), tv, tie_ok.into());
+        }
+        // the aligner's view of every pass: Lean must reproduce every set of additions …
+        if k > 0 || !emit_align {
+            align_line(log, &p.trace, &p.sources);
+        }
+        // … and M-Pretty every output from its Doc
         if let Some((doc, ro)) = &p.doc {
             let r = render_with_anchors(doc, ro);
             log.count("render_requests");
             log.push3(format!("render {}", doc_to_sexp(doc, ro)), rendered_to_reply(&r), "?".into());
         }
     }
+    // blank lines: compared separately from everything else
+    let mut blank = "0";
+    let mut same = true;
+    for w in passes.windows(2) {
+        match blank_class(&w[0].out, &w[1].out) {
+            "other" => blank = "other",
+            "modport" if blank == "0" => blank = "modport",
+            _ => {}
+        }
+        same &= without_blank_lines(&w[0].out) == without_blank_lines(&w[1].out);
+    }
+    log.count(&format!("blank_{blank}"));
     let b01 = |x: bool| x as u8;
     log.push3(
         format!("idem {id:x} {o} {hexsrc}"),
-        format!("nonidem sp={} fix={} cyc={} docs={} shape={} tie={}", b01(sp), b01(fix), b01(cyc), b01(docs), b01(shape), b01(tie)),
+        format!(
+            "nonidem blank={} same={} sp={} orbit={} docs={} shape={} tie={}",
+            blank, b01(same), b01(sp), orbit, b01(docs), b01(shape), b01(tie)
+        ),
         "ok".into(),
     );
-    Some(p1.out)
+    Some(first_out)
 }
 
 fn sexp_only(d: &Doc) -> String {
